@@ -27,12 +27,18 @@ func appendEfaceSlice(buf []byte, l []interface{}, marshal func(interface{}) ([]
 }
 
 func decodeLength(buf []byte, n *int) ([]byte, error) {
-	k, len := binary.Uvarint(buf)
-	if len <= 0 {
+	k, w := binary.Uvarint(buf)
+	if w <= 0 {
+		return nil, errors.New("bad length")
+	}
+	buf = buf[w:]
+	// every element of a table takes at least one byte and a body is part
+	// of what follows, so no count or length can exceed the bytes left
+	if k > uint64(len(buf)) {
 		return nil, errors.New("bad length")
 	}
 	*n = int(k)
-	return buf[len:], nil
+	return buf, nil
 }
 
 func decodeBytes(buf []byte, body *[]byte) ([]byte, error) {
